@@ -114,17 +114,6 @@ theorem consec_is_chain_angle (cang : List Rat) (δ : Rat) :
   · intro h
     rw [chainPairs_head_fst]; rfl
 
-private theorem consec_reach (l : List Rat) (δ : Rat) (ids : List Nat)
-    (hids : ids = 0 :: reachGo δ l 1 0 ∨ ids = reachGo δ l 1 0) (i j : Nat)
-    (h : (i, j) ∈ chainPairs ids) :
-    i < j ∧ j ≤ l.length ∧ δ ≤ span l i j ∧ ∀ m, i < m → m < j → span l i m < δ := by
-  obtain ⟨hch, hb, _⟩ := ids_spec l δ ids hids
-  obtain ⟨k, hk, hp⟩ := mem_chainPairs.mp h
-  simp only [Prod.mk.injEq] at hp
-  obtain ⟨rfl, rfl⟩ := hp
-  obtain ⟨h1, h2, h3⟩ := isChain_getElem hch k hk
-  exact ⟨h1, hb _ (List.getElem_mem _), h2, h3⟩
-
 /-- for a selected pair `(i, j)`: the path travelled since `i` reaches `δ` at `j` and at no earlier
 pose; indices are in range -/
 theorem consec_j_first_reaching_path (steps : List Rat) (δ : Rat) (i j : Nat)
